@@ -3,6 +3,8 @@
 package nsqadmin
 
 import (
+	"encoding/json"
+	"errors"
 	"io"
 	"net"
 	"net/http"
@@ -16,6 +18,7 @@ import (
 	"github.com/nsqio/nsq/internal/clusterinfo"
 	"github.com/nsqio/nsq/internal/http_api"
 	"github.com/nsqio/nsq/internal/lg"
+	"github.com/nsqio/nsq/internal/quantile"
 	"github.com/nsqio/nsq/internal/verifrt"
 )
 
@@ -43,27 +46,33 @@ type vCall struct {
 }
 
 type vReq struct {
+	srv    string // address of the server that received it
 	method string
 	path   string
 	topic  string
 	chanl  string
 	node   string
-	host   string
 }
 
 type vCluster struct {
 	// symbolic
-	calls []vCall
+	calls []vCall  // clusterinfo-level recorder (vNewCluster)
+	posts []string // HTTP-level recorder: POST endpoints in order (vNewClusterHTTP)
+	gets  []string
 	// native
 	mu      sync.Mutex
 	reqs    []vReq
 	servers []*httptest.Server
-	// configuration handed to nsqadmin
+	// the cluster: addresses of its nsqlookupds and nsqds (all nsqds produce topic/channel)
+	lookupdAddrs []string
+	nsqdAddrs    []string
+	// configuration handed to nsqadmin (--lookupd-http-address or --nsqd-http-address)
 	lookupds []string
 	nsqds    []string
-	// what the cluster contains (reads answer with it)
-	topic   string
-	channel string
+	topic    string
+	channel  string
+	// fault: POSTs to this upstream address fail ("" = none)
+	failPost string
 }
 
 var vMutatingKinds = map[string]bool{
@@ -87,29 +96,43 @@ var vKindPath = map[string]string{
 	"TombstoneNodeForTopic": "/topic/tombstone",
 }
 
-// vNewCluster: nLookupd nsqlookupds (0 = nsqadmin runs in --nsqd-http-address mode) and one nsqd
-// producing topic "t" with channel "c".
-func vNewCluster(nLookupd int) *vCluster {
-	u := &vCluster{topic: "t", channel: "c"}
+// vBuildCluster: nLookupd nsqlookupds (0 = nsqadmin runs in --nsqd-http-address mode) and nNsqd
+// nsqds, each producing topic `topic` with channel `channel`. Natively they are loopback servers.
+func vBuildCluster(nLookupd, nNsqd int, topic, channel string) *vCluster {
+	u := &vCluster{topic: topic, channel: channel}
 	if verifrt.Symbolic() {
+		for i := 0; i < nNsqd; i++ {
+			u.nsqdAddrs = append(u.nsqdAddrs, "nsqd"+strconv.Itoa(i)+":4151")
+		}
 		for i := 0; i < nLookupd; i++ {
-			u.lookupds = append(u.lookupds, "lookupd"+strconv.Itoa(i)+":4161")
+			u.lookupdAddrs = append(u.lookupdAddrs, "lookupd"+strconv.Itoa(i)+":4161")
 		}
-		if nLookupd == 0 {
-			u.nsqds = []string{"nsqd0:4151"}
+	} else {
+		for i := 0; i < nNsqd+nLookupd; i++ {
+			srv := httptest.NewUnstartedServer(nil)
+			addr := srv.Listener.Addr().String()
+			srv.Config.Handler = http.HandlerFunc(func(w http.ResponseWriter, r *http.Request) { u.serve(addr, w, r) })
+			srv.Start()
+			u.servers = append(u.servers, srv)
+			if i < nNsqd {
+				u.nsqdAddrs = append(u.nsqdAddrs, addr)
+			} else {
+				u.lookupdAddrs = append(u.lookupdAddrs, addr)
+			}
 		}
-		u.stubClusterinfo()
-		return u
 	}
-	nsqd := httptest.NewServer(http.HandlerFunc(u.serve))
-	u.servers = append(u.servers, nsqd)
-	for i := 0; i < nLookupd; i++ {
-		s := httptest.NewServer(http.HandlerFunc(u.serve))
-		u.servers = append(u.servers, s)
-		u.lookupds = append(u.lookupds, s.Listener.Addr().String())
-	}
+	u.lookupds = u.lookupdAddrs
 	if nLookupd == 0 {
-		u.nsqds = []string{nsqd.Listener.Addr().String()}
+		u.nsqds = u.nsqdAddrs
+	}
+	return u
+}
+
+// vNewCluster: recorder at the clusterinfo level (one nsqd producing "t"/"c").
+func vNewCluster(nLookupd int) *vCluster {
+	u := vBuildCluster(nLookupd, 1, "t", "c")
+	if verifrt.Symbolic() {
+		u.stubClusterinfo()
 	}
 	return u
 }
@@ -120,43 +143,61 @@ func (u *vCluster) close() {
 	}
 }
 
-// nodeName: the nsqd's address as nsqadmin names nodes (broadcast_address:http_port)
-func (u *vCluster) nodeName() string {
-	if verifrt.Symbolic() {
-		return "nsqd0:4151"
-	}
-	return u.servers[0].Listener.Addr().String()
+// nodeName: the first nsqd's address as nsqadmin names nodes (broadcast_address:http_port)
+func (u *vCluster) nodeName() string { return u.nsqdAddrs[0] }
+
+func vHostPort(addr string) (string, string) {
+	h, p, _ := net.SplitHostPort(addr)
+	return h, p
 }
 
-// serve: the native nsqlookupd / nsqd (both roles on every server; the role is the path).
-func (u *vCluster) serve(w http.ResponseWriter, r *http.Request) {
+// producerJSON: what an nsqlookupd reports about nsqd i
+func (u *vCluster) producerJSON(i int) string {
+	h, p := vHostPort(u.nsqdAddrs[i])
+	return `{"remote_address":"127.0.0.1:9","hostname":"h","broadcast_address":"` + h + `","tcp_port":4150,"http_port":` + p +
+		`,"version":"1.0.0","topics":["` + u.topic + `"],"tombstones":[false]}`
+}
+
+// serve: the native nsqlookupd / nsqd (the role is decided by the path asked for).
+func (u *vCluster) serve(addr string, w http.ResponseWriter, r *http.Request) {
 	q := r.URL.Query()
 	u.mu.Lock()
-	u.reqs = append(u.reqs, vReq{method: r.Method, path: r.URL.Path, topic: q.Get("topic"), chanl: q.Get("channel"), node: q.Get("node"), host: r.Host})
+	u.reqs = append(u.reqs, vReq{srv: addr, method: r.Method, path: r.URL.Path, topic: q.Get("topic"), chanl: q.Get("channel"), node: q.Get("node")})
+	fail := u.failPost == addr
 	u.mu.Unlock()
-	_, port, _ := net.SplitHostPort(u.servers[0].Listener.Addr().String())
-	producer := `{"remote_address":"127.0.0.1:9","hostname":"h","broadcast_address":"127.0.0.1","tcp_port":4150,"http_port":` + port +
-		`,"version":"1.0.0","topics":["` + u.topic + `"],"tombstones":[false]}`
 	w.Header().Set("Content-Type", "application/json")
 	if r.Method != "GET" {
+		if fail {
+			w.WriteHeader(500)
+			io.WriteString(w, `{"message":"INTERNAL_ERROR"}`)
+			return
+		}
 		io.WriteString(w, "{}")
 		return
 	}
+	producers := ""
+	for i := range u.nsqdAddrs {
+		if i > 0 {
+			producers += ","
+		}
+		producers += u.producerJSON(i)
+	}
+	h, port := vHostPort(addr)
 	switch r.URL.Path {
 	case "/lookup":
-		io.WriteString(w, `{"channels":["`+u.channel+`"],"producers":[`+producer+`]}`)
+		io.WriteString(w, `{"channels":["`+u.channel+`"],"producers":[`+producers+`]}`)
 	case "/nodes":
-		io.WriteString(w, `{"producers":[`+producer+`]}`)
+		io.WriteString(w, `{"producers":[`+producers+`]}`)
 	case "/topics":
 		io.WriteString(w, `{"topics":["`+u.topic+`"]}`)
 	case "/channels":
 		io.WriteString(w, `{"channels":["`+u.channel+`"]}`)
 	case "/info":
-		io.WriteString(w, `{"version":"1.0.0","broadcast_address":"127.0.0.1","hostname":"h","tcp_port":4150,"http_port":`+port+`}`)
+		io.WriteString(w, `{"version":"1.0.0","broadcast_address":"`+h+`","hostname":"h","tcp_port":4150,"http_port":`+port+`}`)
 	case "/stats":
 		io.WriteString(w, `{"version":"1.0.0","health":"OK","start_time":1,"topics":[{"topic_name":"`+u.topic+
-			`","depth":0,"backend_depth":0,"message_count":3,"paused":false,"channels":[{"channel_name":"`+u.channel+
-			`","depth":0,"backend_depth":0,"in_flight_count":0,"deferred_count":0,"message_count":3,"requeue_count":0,"timeout_count":0,"clients":[],"paused":false}]}]}`)
+			`","depth":0,"backend_depth":0,"message_count":3,"paused":false,"e2e_processing_latency":{"count":0,"percentiles":null},"channels":[{"channel_name":"`+u.channel+
+			`","depth":0,"backend_depth":0,"in_flight_count":0,"deferred_count":0,"message_count":3,"requeue_count":0,"timeout_count":0,"clients":[],"paused":false,"e2e_processing_latency":{"count":0,"percentiles":null}}]}]}`)
 	default:
 		w.WriteHeader(404)
 		io.WriteString(w, `{"message":"NOT_FOUND"}`)
@@ -166,7 +207,7 @@ func (u *vCluster) serve(w http.ResponseWriter, r *http.Request) {
 // total: how many requests reached the cluster (symbolic: clusterinfo calls; native: HTTP requests)
 func (u *vCluster) total() int {
 	if verifrt.Symbolic() {
-		return len(u.calls)
+		return len(u.calls) + len(u.posts) + len(u.gets)
 	}
 	u.mu.Lock()
 	defer u.mu.Unlock()
@@ -320,15 +361,120 @@ func (u *vCluster) stubClusterinfo() {
 	})
 	verifrt.Stub(vCI+"GetNSQDStats", func(c *CI, p clusterinfo.Producers, topic string, channel string, clients bool) ([]*clusterinfo.TopicStats, map[string]*clusterinfo.ChannelStats, error) {
 		u.rec("GetNSQDStats", topic, channel, "", nil, nil)
-		cs := &clusterinfo.ChannelStats{Node: "nsqd0:4151", TopicName: u.topic, ChannelName: u.channel, MessageCount: 3}
-		cs.NodeStats = []*clusterinfo.ChannelStats{{Node: "nsqd0:4151", TopicName: u.topic, ChannelName: u.channel, MessageCount: 3}}
-		ts := &clusterinfo.TopicStats{Node: "nsqd0:4151", TopicName: u.topic, MessageCount: 3, Channels: []*clusterinfo.ChannelStats{cs}}
+		lat := func() *quantile.E2eProcessingLatencyAggregate { return &quantile.E2eProcessingLatencyAggregate{} }
+		cs := &clusterinfo.ChannelStats{Node: "nsqd0:4151", TopicName: u.topic, ChannelName: u.channel, MessageCount: 3, E2eProcessingLatency: lat()}
+		cs.NodeStats = []*clusterinfo.ChannelStats{{Node: "nsqd0:4151", TopicName: u.topic, ChannelName: u.channel, MessageCount: 3, E2eProcessingLatency: lat()}}
+		ts := &clusterinfo.TopicStats{Node: "nsqd0:4151", TopicName: u.topic, MessageCount: 3, Channels: []*clusterinfo.ChannelStats{cs}, E2eProcessingLatency: lat()}
 		m := map[string]*clusterinfo.ChannelStats{u.channel: cs}
 		if channel != "" && channel != u.channel {
-			m[channel] = &clusterinfo.ChannelStats{TopicName: topic, ChannelName: channel}
+			m[channel] = &clusterinfo.ChannelStats{TopicName: topic, ChannelName: channel, E2eProcessingLatency: lat()}
 		}
 		return []*clusterinfo.TopicStats{ts}, m, nil
 	})
+}
+
+// ---- HTTP-level cluster: the real clusterinfo runs, only the HTTP client is replaced ----
+
+// vNewClusterHTTP: under gosmt (*http_api.Client).POSTV1 / GETV1 are redirected to a model of the
+// cluster's HTTP surface (POST: record the endpoint, fail if the upstream is the faulty one; GET:
+// answer /lookup, /info, /stats the way nsqlookupd and nsqd do, through the json model).
+func vNewClusterHTTP(nLookupd, nNsqd int) *vCluster {
+	u := vBuildCluster(nLookupd, nNsqd, "tt", "cc")
+	if !verifrt.Symbolic() {
+		return u
+	}
+	verifrt.Stub("(*github.com/nsqio/nsq/internal/http_api.Client).POSTV1", func(c *http_api.Client, endpoint string, data url.Values, v interface{}) error {
+		u.posts = append(u.posts, endpoint)
+		if u.failPost != "" && strings.HasPrefix(endpoint, "http://"+u.failPost+"/") {
+			return errors.New("got response 500 Internal Server Error")
+		}
+		return nil
+	})
+	verifrt.Stub("(*github.com/nsqio/nsq/internal/http_api.Client).GETV1", func(c *http_api.Client, endpoint string, v interface{}) error {
+		u.gets = append(u.gets, endpoint)
+		type producer struct {
+			RemoteAddress    string   `json:"remote_address"`
+			Hostname         string   `json:"hostname"`
+			BroadcastAddress string   `json:"broadcast_address"`
+			TCPPort          int      `json:"tcp_port"`
+			HTTPPort         int      `json:"http_port"`
+			Version          string   `json:"version"`
+			Topics           []string `json:"topics"`
+			Tombstones       []bool   `json:"tombstones"`
+		}
+		type topic struct {
+			Name string `json:"topic_name"`
+		}
+		var doc []byte
+		switch {
+		case strings.Contains(endpoint, "/lookup?"):
+			var ps []producer
+			for _, a := range u.nsqdAddrs {
+				h, _ := vHostPort(a)
+				ps = append(ps, producer{"127.0.0.1:9", "h", h, 4150, 4151, "1.0.0", []string{u.topic}, []bool{false}})
+			}
+			doc, _ = json.Marshal(struct {
+				Channels  []string   `json:"channels"`
+				Producers []producer `json:"producers"`
+			}{[]string{u.channel}, ps})
+		case strings.HasSuffix(endpoint, "/info"):
+			h, _ := vHostPort(strings.TrimSuffix(strings.TrimPrefix(endpoint, "http://"), "/info"))
+			doc, _ = json.Marshal(struct {
+				Version          string `json:"version"`
+				BroadcastAddress string `json:"broadcast_address"`
+				Hostname         string `json:"hostname"`
+				HTTPPort         int    `json:"http_port"`
+				TCPPort          int    `json:"tcp_port"`
+			}{"1.0.0", h, "h", 4151, 4150})
+		case strings.Contains(endpoint, "/stats?"):
+			doc, _ = json.Marshal(struct {
+				Topics []topic `json:"topics"`
+			}{[]topic{{u.topic}}})
+		default:
+			return errors.New("got response 404 Not Found")
+		}
+		return json.Unmarshal(doc, v)
+	})
+	return u
+}
+
+// vEscape: application/x-www-form-urlencoded form of the names used here (only ':' needs it)
+func vEscape(s string) string { return strings.Replace(s, ":", "%3A", -1) }
+
+// posted: upstream `addr` received POST path with exactly these parameters
+func (u *vCluster) posted(addr, path, topic, channel, node string) bool {
+	if verifrt.Symbolic() {
+		qs := "topic=" + vEscape(topic)
+		if channel != "" {
+			qs += "&channel=" + vEscape(channel)
+		}
+		if node != "" {
+			qs += "&node=" + vEscape(node)
+		}
+		want := "http://" + addr + path + "?" + qs
+		for _, e := range u.posts {
+			if e == want {
+				return true
+			}
+		}
+		return false
+	}
+	u.mu.Lock()
+	defer u.mu.Unlock()
+	for _, r := range u.reqs {
+		if r.srv == addr && r.method == "POST" && r.path == path && r.topic == topic && r.chanl == channel && r.node == node {
+			return true
+		}
+	}
+	return false
+}
+
+// nPosts: how many POSTs reached the cluster
+func (u *vCluster) nPosts() int {
+	if verifrt.Symbolic() {
+		return len(u.posts)
+	}
+	return u.mutations()
 }
 
 // ---- nsqadmin under test ----
@@ -337,6 +483,7 @@ func vOptions(u *vCluster) *Options {
 	return &Options{
 		LogLevel:                 lg.FATAL,
 		LogPrefix:                "[nsqadmin] ",
+		Logger:                   lg.NilLogger{},
 		HTTPAddress:              "127.0.0.1:0",
 		BasePath:                 "/",
 		StatsdPrefix:             "nsq.%s",
